@@ -134,6 +134,27 @@ func genC08(g *Rng, tier string, emit func(Op)) {
 		}
 		s := buildSession(g, specs, randSecret(g), false)
 		emit(listOp(s.keys, s.trees, s.ctx, s.nonce, false, nil, "seed", "accept"))
+		// a proof with a non-revocation part presented under a key WITHOUT revocation support (an
+		// issuer's older key), the unsigned key counter of the embedded accumulator rewritten to that
+		// key's counter so that the counter comparison passes
+		for pi, ptree := range s.trees {
+			pt, _ := ptree.(T)
+			nr, _ := pt["nonrev_proof"].(T)
+			if nr == nil {
+				continue
+			}
+			for _, ctr := range []int{int(kb.pk.Counter), int(kb.pk.Counter) + 1} {
+				t2 := cloneTree(any(s.trees)).([]any)
+				if sa, ok := t2[pi].(T)["nonrev_proof"].(T)["sacc"].(T); ok {
+					sa["pk"] = ctr
+				}
+				k2 := append([]*KeyPair{}, s.keys...)
+				k2[pi] = kb
+				o := listOp(k2, t2, s.ctx, s.nonce, false, nil, "nonrev-under-key-without-revocation", "reject")
+				o["sigviews"] = sigViews(any(t2), []*KeyPair{ka})
+				emit(o)
+			}
+		}
 		root := any(T{"l": any(s.trees)}) // holder, so that list elements themselves can be removed
 		paths := allPaths(root)
 		// two cooperating sites: an index that is neither disclosed nor hidden (its disclosed entry
